@@ -10,6 +10,6 @@ func init() {
 	verifResetHook = func() {
 		userConfig = config.New("templates", ".tw.html", "", false)
 		customFunc = config.NewFunc()
-		usesTemplates = false
+		usesTemplates.Store(false)
 	}
 }
